@@ -473,7 +473,11 @@ def run(ctx, R, tier):
     from ..report import Rules
     from . import c10
     R10 = Rules("C10")
-    c10.run(ctx, R10, tier)
+    try:
+        c10.run(ctx, R10, tier)
+    except AnalysisError as _shared_x:
+        # the other property's own anchors are gone on this tree: its check reports that; what it produced before is still shared
+        R.note("obligations shared from C10 are incomplete on this tree: %s" % _shared_x)
     for o in R10.obs:
         if o.key == "C10-R3|_streamResponse|fresh-id":
             R.add("C03-R5", "_streamResponse|fresh-id", o.desc + " (an item request must never be answered from another call's stream)", o.ok, o.loc, o.detail)
